@@ -310,7 +310,14 @@ impl Tunnel {
             Err(e) => return Err((Some(request), "Connection to peer failed", e)),
         };
 
-        log_id!(debug, request_id, "Successfully connected to {:?}", meta);
+        // not the whole meta: it carries the client's credentials and the raw SNI
+        log_id!(
+            debug,
+            request_id,
+            "Successfully connected to {:?} (client {})",
+            meta.destination,
+            meta.client_address
+        );
         log_id!(
             trace,
             request_id,
